@@ -110,6 +110,15 @@ let run (toks : string list) : string =
                   let dd = !d in
                   d := { dd with Config.d_uuid = Some nw;
                                  Config.d_entities = L.map (fun ((n, k), priv) -> if n = old && priv then ((nw, k), priv) else ((n, k), priv)) dd.Config.d_entities })
+          | ["RA"; admin; name] ->
+            (* over one verified connection: the admin removes its own pairing, then adds <name> *)
+            if not !running then emit "RA=stopped"
+            else if not (paired admin) then emit "RA=verify-failed"
+            else begin
+              d := Config.unpair !d (bytes_of_string admin);
+              d := Config.pair !d (bytes_of_string name) (key_of name);
+              emit "RA=st2/st2"
+            end
           | [("D" | "Z") as k; file] ->
             if !running then emit (k ^ "=running")
             else begin
